@@ -91,6 +91,20 @@ func runC04(rowsFile string, b *hc.Builder, stride int) {
 					}
 				case <-time.After(10 * time.Second):
 					violation("C04/generated/"+fl.name+"/hang", "decoder did not return within 10s on "+clip(doc), map[string]any{"schema": row.Schema, "input": doc})
+					// the decoder is still spinning (and possibly allocating) in its goroutine: report and stop here
+					sb, _ := json.Marshal(map[string]any{"kind": "stats", "stats": stats, "violation_counts": vcount})
+					out.Write(sb)
+					out.WriteByte('\n')
+					out.Flush()
+					os.Exit(0)
+				}
+			}
+			if fl.name == "json" {
+				// structural edits: every array or object of the document replaced by null, and emptied (an absent inner
+				// container as opposed to a present but empty one)
+				for _, sp := range jsonSpans(wire) {
+					try("null-for-container", wire[:sp[0]]+"null"+wire[sp[1]+1:])
+					try("emptied-container", wire[:sp[0]+1]+wire[sp[1]:])
 				}
 			}
 			for i := 0; i <= len(wire); i++ {
@@ -107,4 +121,37 @@ func runC04(rowsFile string, b *hc.Builder, stride int) {
 	sb, _ := json.Marshal(map[string]any{"kind": "stats", "stats": stats, "violation_counts": vcount})
 	out.Write(sb)
 	out.WriteByte('\n')
+}
+
+// jsonSpans returns [open, close] positions of every array / object of a valid JSON text (the outermost one excluded)
+func jsonSpans(doc string) [][2]int {
+	var out [][2]int
+	var stack []int
+	inStr := false
+	for i := 0; i < len(doc); i++ {
+		c := doc[i]
+		if inStr {
+			if c == '\\' {
+				i++
+			} else if c == '"' {
+				inStr = false
+			}
+			continue
+		}
+		switch c {
+		case '"':
+			inStr = true
+		case '[', '{':
+			stack = append(stack, i)
+		case ']', '}':
+			if len(stack) > 0 {
+				o := stack[len(stack)-1]
+				stack = stack[:len(stack)-1]
+				if len(stack) > 0 {
+					out = append(out, [2]int{o, i})
+				}
+			}
+		}
+	}
+	return out
 }
